@@ -24,6 +24,7 @@ EvOK(o, e, slack10k) ==
          [] e.e = "d" -> o.ms = e.ms
          [] e.e = "pass" -> o.k = e.k
          [] e.e \in {"dw", "aw"} -> o.p = e.p /\ o.v = e.v
+         [] e.e = "pm" -> o.p = e.p /\ o.m = e.m
          [] OTHER -> FALSE
 RECURSIVE FirstDiff(_, _, _, _)
 FirstDiff(obs, exp, i, slack10k) ==
